@@ -105,6 +105,14 @@ class Contract:
             self.ghost_param_defaults[name] = default
         return self
 
+    def mutates_param(self, name):
+        """The function mutates this container parameter in place; its final value is `final_<name>` in the
+        postconditions and replaces the caller's variable after a call."""
+        self.mutated_params = getattr(self, "mutated_params", []) + [name]
+        self.expose = list(getattr(self, "expose", [])) + [name]
+        self.locals[name] = self.params[name]
+        return self
+
     def returns(self, sort):
         self.result = sort
         return self
